@@ -28,12 +28,14 @@ class Profile:
         self.dyn = []             # 'call','bind','required','xref'
         self.p_dyn = 0.0
         self.underscore = False
+        self.meta = 0.0           # probability that a scalar carries !metadata{{...}} (user metadata, optionally a priority)
         self.__dict__.update(kw)
 
 
 PROFILES = {
     'plain': Profile(),
     'prio': Profile(p_tag=0.3, tags=PRIO_TAGS),
+    'priomap': Profile(p_tag=0.3, tags=PRIO_TAGS, p_seq=0.0, p_map=0.55, meta=0.2, p_empty=0.05),
     'del': Profile(p_tag=0.35, tags=PRIO_TAGS + DEL_TAGS + DEL_TAGS, p_remove=0.05),
     'all': Profile(p_tag=0.35, tags=PRIO_TAGS + DEL_TAGS + ['!new', '!unsafe'], p_remove=0.04),
     'notnew': Profile(p_tag=0.3, tags=PRIO_TAGS + DEL_TAGS + NEW_TAGS + NEW_TAGS, p_remove=0.03),
@@ -130,6 +132,11 @@ def gen_node(rng, prof, depth, ctx):
         return ('seq', t, [gen_node(rng, prof, prof.max_depth, ctx) for _ in range(rng.randint(0, 2))])
     if depth >= prof.max_depth or r >= prof.p_seq + prof.p_map:
         s = gen_scalar(rng)
+        if prof.meta and rng.random() < prof.meta:
+            m = f"'m{rng.randint(1, 3)}': {rng.randint(1, 9)}"
+            if rng.random() < 0.5:
+                m += f", 'priority': {rng.choice([1, -1])}"
+            tag = '!metadata{{' + m + '}}'
         return ('sc', tag, s[2])
     if r < prof.p_seq:
         n = 0 if rng.random() < prof.p_empty else rng.randint(1, prof.max_width)
